@@ -237,10 +237,10 @@ LEVEL_TEXT = {
  "C09": "Proof relative to assumed Orbax/OmegaConf contracts: carried state is saved, saved state is the current state at a save site labelled with the iteration (real save() body executed against the manager ADT), every saved field restored to its own attribute, everything else fixed by construction. Resume equality itself is exercised by the bounded harness (fresh process).",
  "C10": "Proof relative to assumed library contracts: restore() error paths, overrides field by field (every subset of the optional arguments, symbolic values), state read from the original directory at the chosen step, load_checkpoint, has_full_config, config capture; template-structure obligation fails for the VI family (known finding).",
  "C12": "Proof relative to the CheckpointManager ADT: cadence invariant of the five solve loops with the real save() body, final iteration always submitted, set-up effects (nothing for f = 0, max_to_keep, config.yaml iff reconstructible); retention itself is the ADT's assumed behaviour, conformance-tested against real Orbax.",
- "C13": "Proof of sum-to-one / non-negativity by construction for Forest, De Moor and Mirjalili's demand factor with the distribution functions uninterpreted; Hendrix and Mirjalili's event enumeration bounded only (complete enumeration on a parameter grid).",
+ "C13": "Proof of sum-to-one / non-negativity by construction for Forest, De Moor and Mirjalili's demand factor with the distribution functions uninterpreted; Mirjalili's event space proved to be exactly the documented event set, each event once (useful life 1-3, limits symbolic; boolean-mask filter as assumed library contract); Hendrix: four-case decomposition and the contents of both tables (nested loop invariants over the real numpy loops) proved, the sum over the event space itself bounded only (complete enumeration on a parameter grid; tail mass = known finding).",
  "C14": "Proof per dimension instance (state dimension <= 4, order limits symbolic): documented sizes, index of every listed state, in-box vectors map to the row holding them; closure of transition for useful life <= 5, lead time <= 4.",
  "C15": "Proof, complete per dimension instance (useful life 1..5 x lead time 1..4 x issuing policy), all quantities symbolic: transition == independent scalar model, conservation, reward coefficient-wise.",
- "C16": "Plumbing proved with distribution functions uninterpreted (which distribution, parameters, bins, ordering, censoring, product form, initial values); numerics of special functions trusted; Hendrix joint distribution bounded only.",
+ "C16": "Plumbing proved with distribution functions uninterpreted (which distribution, parameters, bins, ordering, censoring, product form, initial values); numerics of special functions trusted; Hendrix: four cases + table contents (pu = Poisson demand thinned by binomial substitution, pz = convolution with Poisson demand for A) proved for the configured parameters; Mirjalili event space = documented event set. The comparison against scipy brute force stays as bounded second line.",
  "C17": "Proof with two loop invariants: P entries = event mass per successor, R = expected reward, ValueError exactly when some row deviates by more than the tolerance, accepted rows renormalised to one; equality of the matrix backup in Lean. The clause 'message names the offending pair' is bounded only.",
  "C18": "Proof for all n_states, max_batch_size, device counts: attribute consistency, layout, un-batching for ranks 3-5.",
  "C19": "Proof per dimension count 1..4 with arbitrary integer bounds: enumeration, inverse index, clipping to the nearest box vector.",
@@ -251,13 +251,20 @@ for _p, _t in LEVEL_TEXT.items():
 
 HXT = [U(["contracts.hendrix_tables"], f"{HX}.{m}") for m in ("_calculate_pu", "_calculate_pz", "_setup_after_space_construction")]
 PCTOR = [U(["contracts.problem_spaces"], f"{t}.__init__", timeout_ms=20000, **({"pop": [f"{HX}._setup_after_space_construction"]} if t == HX else {})) for t in (DM, MJ, HX, FO)]
-_extend("C14", PCTOR); _extend("C15", PCTOR); _extend("C20", PCTOR); _extend("C16", PCTOR + HXT)
+MJE = [U(["contracts.mirjalili_events"], f"{MJ}._construct_random_event_space")]
+_extend("C14", PCTOR + MJE); _extend("C15", PCTOR); _extend("C20", PCTOR); _extend("C16", PCTOR + HXT + MJE)
 
 # every property is quantified over problems / instances / call histories: none may depend on hidden module-level state
 GLOBALS = dict(script="contracts/global_state.py", id="global_state", modules=[], target="global_state")
 for _p in list(PROPS): PROPS[_p]["units"] = PROPS[_p]["units"] + [GLOBALS]
-_extend("C13", HXT + [PCTOR[2]] + [U(PRB, f"{HX}.random_event_probability", timeout_ms=30000)] + [U(PRB, f"{HX}.{m}") for m in ("_get_probs_ia_lt_stock_a_ib_lt_stock_b", "_get_probs_ia_eq_stock_a_ib_lt_stock_b", "_get_probs_ia_lt_stock_a_ib_eq_stock_b", "_get_probs_ia_eq_stock_a_ib_eq_stock_b")])
+_extend("C13", MJE + HXT + [PCTOR[2]] + [U(PRB, f"{HX}.random_event_probability", timeout_ms=30000)] + [U(PRB, f"{HX}.{m}") for m in ("_get_probs_ia_lt_stock_a_ib_lt_stock_b", "_get_probs_ia_eq_stock_a_ib_lt_stock_b", "_get_probs_ia_lt_stock_a_ib_eq_stock_b", "_get_probs_ia_eq_stock_a_ib_eq_stock_b")])
 
+for _p in ("C13", "C14", "C16"):
+    PROPS[_p]["lean"] = list(PROPS[_p].get("lean", [])) + [x for x in ("ravel2_inj", "ravel2_lt") if x not in PROPS[_p].get("lean", [])]
+    PROPS[_p]["assumptions"] = list(PROPS[_p].get("assumptions", [])) + [
+        "numpy boolean-mask row selection keeps exactly the rows whose mask is True, in their original order (assumed library contract, pyvc FILTER rule; conformance: bounded harness c14/c16 event-space enumeration)",
+        "np.repeat(a, r, axis=0): result row k is source row k // r; np.hstack joins 2-D arrays column-wise (assumed library contracts)",
+        "scipy.stats.poisson.pmf / binom.pmf are the mathematical pmfs (uninterpreted; numerics trusted)"]
 HOOK_COMMITS = []
 NOT_APPLICABLE = {
     "C11": "crash atomicity and writer-thread interleavings live inside Orbax's commit protocol, which is not code of this repository; contracts on mdpax's calls can only assume atomic commit, not decide it (DESIGN.md section 6 C11). The contract-shaped fragments (step label, no mutation of a state handed to an asynchronous save, latest-step selection) are discharged under C09/C10/C12.",
